@@ -19,10 +19,13 @@ El(A, i, j) == A[i][j]
 MT(A) == Tup([i \in 1..N(A) |-> Tup([j \in 1..N(A) |-> A[j][i]])])
 MC(A) == Tup([i \in 1..N(A) |-> Tup([j \in 1..N(A) |-> GConj(A[i][j])])])
 Op(A, trans) == IF trans = "N" THEN A ELSE IF trans = "T" THEN MT(A) ELSE MC(MT(A))
-MMulG(X, Y) == Tup([i \in 1..N(X) |-> Tup([j \in 1..N(X) |-> GSum(Tup([l \in 1..N(X) |-> GMul(X[i][l], Y[l][j])]))])])
+MMulG(X, Y) == Tup([i \in 1..Len(X) |-> Tup([j \in 1..Len(Y[1]) |-> GSum(Tup([l \in 1..Len(Y) |-> GMul(X[i][l], Y[l][j])]))])])
+MSubG(X, Y) == Tup([i \in 1..Len(X) |-> Tup([j \in 1..Len(X[1]) |-> GSub(X[i][j], Y[i][j])])])
+MScaleG(c, X) == Tup([i \in 1..Len(X) |-> Tup([j \in 1..Len(X[1]) |-> GMul(c, X[i][j])])])
+SubM(A, rr, cc) == Tup([i \in 1..Len(rr) |-> Tup([j \in 1..Len(cc) |-> A[rr[i]][cc[j]]])])
 GNeg(a) == <<-a[1], -a[2]>>
 
-Det(A) == IF N(A) = 2 THEN GSub(GMul(A[1][1], A[2][2]), GMul(A[1][2], A[2][1]))
+Det(A) == IF N(A) = 1 THEN A[1][1] ELSE IF N(A) = 2 THEN GSub(GMul(A[1][1], A[2][2]), GMul(A[1][2], A[2][1]))
           ELSE GDet3(A[1], A[2], A[3])
 (* adjugate: transpose of the cofactor matrix *)
 Minor3(A, i, j) ==
@@ -30,7 +33,7 @@ Minor3(A, i, j) ==
       r1 == CHOOSE x \in r : \A y \in r : x <= y   r2 == CHOOSE x \in r : \A y \in r : x >= y
       c1 == CHOOSE x \in c : \A y \in c : x <= y   c2 == CHOOSE x \in c : \A y \in c : x >= y IN
   GSub(GMul(A[r1][c1], A[r2][c2]), GMul(A[r1][c2], A[r2][c1]))
-Adj(A) == IF N(A) = 2 THEN <<(<<A[2][2], GNeg(A[1][2])>>), (<<GNeg(A[2][1]), A[1][1]>>)>>
+Adj(A) == IF N(A) = 1 THEN <<(<<(<<1, 0>>)>>)>> ELSE IF N(A) = 2 THEN <<(<<A[2][2], GNeg(A[1][2])>>), (<<GNeg(A[2][1]), A[1][1]>>)>>
           ELSE Tup([i \in 1..3 |-> Tup([j \in 1..3 |-> IF (i + j) % 2 = 0 THEN Minor3(A, j, i) ELSE GNeg(Minor3(A, j, i))])])
 Iden(n, d) == Tup([i \in 1..n |-> Tup([j \in 1..n |-> IF i = j THEN d ELSE GZero])])
 
@@ -87,6 +90,36 @@ Group ==
   /\ Adj(Op(mat, "T")) = MC(Adj(Op(mat, "H")))        \* A^T x = b  <=>  A^H conj(x) = conj(b)
   /\ Det(Op(mat, "T")) = Det(mat) /\ Det(Op(mat, "H")) = GConj(Det(mat))
 AutoAdmissible == NonSingular(mat) => (Admissible(AutoSolver(mat, FALSE), mat) /\ Admissible(AutoSolver(mat, TRUE), mat))
+
+(* ---- partitioned systems (SystemOfEquations, StaticCondensation): index partitions of 1..n ---- *)
+SortedSeq(S) == CHOOSE q \in [1..Cardinality(S) -> S] : \A i, j \in 1..Cardinality(S) : i < j => q[i] < q[j]
+Parts2 == {<<Tup(SortedSeq(F)), Tup(SortedSeq((1..N(mat)) \ F))>> : F \in (SUBSET (1..N(mat))) \ {{}, 1..N(mat)}}
+MF3 == {<<Tup(SortedSeq(M)), Tup(SortedSeq(F))>> : M \in (SUBSET (1..N(mat))) \ {{}}, F \in (SUBSET (1..N(mat))) \ {{}}}
+Disjoint(pr) == {pr[1][i] : i \in 1..Len(pr[1])} \cap {pr[2][i] : i \in 1..Len(pr[2])} = {}
+(* scaled Schur complement det(A_ff) A_mm - A_mf adj(A_ff) A_fm *)
+SchurNum(A, m, f) == MSubG(MScaleG(Det(SubM(A, f, f)), SubM(A, m, m)), MMulG(MMulG(SubM(A, m, f), Adj(SubM(A, f, f))), SubM(A, f, m)))
+LinSysOK ==
+  \A pr \in Parts2 : LET Aff == SubM(mat, pr[1], pr[1]) IN
+     NonSingular(Aff) => /\ MMulG(Aff, Adj(Aff)) = Iden(Len(pr[1]), Det(Aff))
+                         /\ MMulG(MT(Aff), Adj(MT(Aff))) = Iden(Len(pr[1]), Det(Aff))
+(* the condensed matrix reproduces the main-dof response: (M^-1)_mm = Ared^-1 for M the (main + free) block *)
+SchurOK ==
+  \A pr \in {q \in MF3 : Disjoint(q)} :
+     LET m == pr[1]  f == pr[2]  mf == m \o f
+         Mb == SubM(mat, mf, mf)
+         Aff == SubM(mat, f, f)
+         mm == Tup([i \in 1..Len(m) |-> i]) IN
+     (NonSingular(Aff) /\ NonSingular(Mb)) =>
+        MMulG(SubM(Adj(Mb), mm, mm), SchurNum(mat, m, f)) = Iden(Len(m), GMul(Det(Mb), Det(Aff)))
+
+EmitLS == (done /\ NonSingular(mat)) =>
+  PrintT(<<"LS", ToJson([A |-> mat,
+        cls |-> [cplx |-> IsCplx(mat), diag |-> IsDiag(mat), sym |-> IsSym(mat), herm |-> IsHerm(mat), hpd |-> IsHPD(mat)],
+        sol |-> [t \in {"N", "T", "H"} |-> [adj |-> Adj(Op(mat, t)), det |-> Det(Op(mat, t))]],
+        parts |-> {[f |-> pr[1], p |-> pr[2], adj |-> Adj(SubM(mat, pr[1], pr[1])), det |-> Det(SubM(mat, pr[1], pr[1])),
+                    adjT |-> Adj(MT(SubM(mat, pr[1], pr[1])))] : pr \in {q \in Parts2 : NonSingular(SubM(mat, q[1], q[1]))}},
+        schur |-> {[m |-> pr[1], f |-> pr[2], num |-> SchurNum(mat, pr[1], pr[2]), det |-> Det(SubM(mat, pr[2], pr[2]))] :
+                    pr \in {q \in MF3 : Disjoint(q) /\ NonSingular(SubM(mat, q[2], q[2]))}}])>>)
 
 Emit == (done /\ NonSingular(mat)) =>
   PrintT(<<"MAT", ToJson([A |-> mat,
